@@ -1,6 +1,7 @@
 package sym
 
 import (
+	"os"
 	"fmt"
 	"go/constant"
 	"go/token"
@@ -31,6 +32,8 @@ type Obligation struct {
 
 // Exec is one symbolic-execution session (one Builder; not safe for concurrent use).
 type Exec struct {
+	implCache map[string][]implCase
+	RootPkg string // package path of the function under verification (see usable)
 	B       *smt.Builder
 	Prog    *ssa.Program
 	Specs   map[string]*spec.DB // by package path
@@ -156,14 +159,50 @@ func FuncName(fn *ssa.Function) string {
 }
 
 func (x *Exec) specFor(fn *ssa.Function) *spec.FuncSpec {
-	if fn == nil || fn.Pkg == nil {
+	if fn == nil {
+		return nil
+	}
+	if fn.Pkg == nil {
+		// the wrapper of a promoted method: contract under the name of the outer type, (*T).m
+		if fn.Synthetic == "" || fn.Signature.Recv() == nil {
+			return nil
+		}
+		t := fn.Signature.Recv().Type()
+		if p, ok := t.(*types.Pointer); ok {
+			t = p.Elem()
+		}
+		n, ok := t.(*types.Named)
+		if !ok || n.Obj().Pkg() == nil {
+			return nil
+		}
+		if db := x.Specs[n.Obj().Pkg().Path()]; db != nil && x.usable(db) {
+			return db.Funcs[FuncName(fn)]
+		}
 		return nil
 	}
 	db := x.Specs[fn.Pkg.Pkg.Path()]
-	if db == nil {
+	if db == nil || !x.usable(db) {
 		return nil
 	}
 	return db.Funcs[FuncName(fn)]
+}
+
+// usable: the contracts of a package that declares "package usedby P..." are used (as callee
+// contracts and as the contracts to verify) only while a function of one of those packages, or of
+// the package itself, is under verification; elsewhere its functions are uncontracted as before.
+func (x *Exec) usable(db *spec.DB) bool {
+	if len(db.UsedBy) == 0 || x.RootPkg == "" {
+		return true
+	}
+	if strings.HasSuffix(x.RootPkg, "/"+db.Pkg) || x.RootPkg == db.Pkg {
+		return true
+	}
+	for _, p := range db.UsedBy {
+		if strings.HasSuffix(x.RootPkg, "/"+p) || x.RootPkg == p {
+			return true
+		}
+	}
+	return false
 }
 
 func (x *Exec) predFor(pkg *ssa.Package, name string) *spec.Pred {
@@ -345,6 +384,65 @@ func (f *Frame) lookupName(name string) (nameDef, bool) {
 	return best, found
 }
 
+// interiorPhi: the element type when phi is a pointer variable some definition of which is the
+// address of a slice element (looking through other phis), nil otherwise; and the slice, when all
+// those addresses are elements of the same slice value.
+func interiorPhi(phi *ssa.Phi) (types.Type, ssa.Value) {
+	pt, ok := phi.Type().Underlying().(*types.Pointer)
+	if !ok {
+		return nil, nil
+	}
+	seen := map[*ssa.Phi]bool{}
+	found := false
+	var of ssa.Value
+	same := true
+	var walk func(v ssa.Value)
+	walk = func(v ssa.Value) {
+		switch v := v.(type) {
+		case *ssa.IndexAddr:
+			if _, isSlice := v.X.Type().Underlying().(*types.Slice); isSlice {
+				found = true
+				if of == nil {
+					of = v.X
+				} else if of != v.X {
+					same = false
+				}
+			} else {
+				same = false
+			}
+		case *ssa.Phi:
+			if seen[v] {
+				return
+			}
+			seen[v] = true
+			for _, e := range v.Edges {
+				walk(e)
+			}
+		case *ssa.Const:
+			if !v.IsNil() {
+				same = false
+			}
+		default:
+			same = false
+		}
+	}
+	walk(phi)
+	if !found {
+		return nil, nil
+	}
+	if !same {
+		of = nil
+	}
+	return pt.Elem(), of
+}
+
+func defBlock(v ssa.Value) *ssa.BasicBlock {
+	if ins, ok := v.(ssa.Instruction); ok {
+		return ins.Block()
+	}
+	return nil
+}
+
 func isPhi(v ssa.Value) bool { _, ok := v.(*ssa.Phi); return ok }
 
 func domDepth(b *ssa.BasicBlock) int {
@@ -434,6 +532,9 @@ func (f *Frame) findLoops() {
 	for i, h := range headers {
 		li := f.loops[h]
 		li.ordinal = i + 1
+		if os.Getenv("GOWP_LOOPS") != "" {
+			fmt.Fprintf(os.Stderr, "loop %d of %s: header block %d at %s\n", li.ordinal, FuncName(f.fn), h.Index, f.x.Prog.Fset.Position(pos(li)))
+		}
 		for _, ins := range h.Instrs {
 			if p, ok := ins.(*ssa.Phi); ok {
 				li.phis = append(li.phis, p)
@@ -1025,6 +1126,23 @@ func (f *Frame) enterLoop(li *loopInfo, ins []*edgeIn) *State {
 		if name == "" {
 			name = phi.Name()
 		}
+		if et, of := interiorPhi(phi); et != nil {
+			// a pointer variable assigned element addresses (&s[i]) in the loop: an arbitrary
+			// element address, or nil (root 0); the invariant says which
+			nm := fmt.Sprintf("%s@L%d", name, li.ordinal)
+			if sv, ok := f.regs[of]; ok && of != nil && !li.blocks[defBlock(of)] {
+				// every such address is an element of one slice defined before the loop: nil, or
+				// &s[rel] for an arbitrary rel (same shape as the addresses the loop body computes)
+				arr, off, _, _ := sliceParts(sv)
+				root := x.B.Fresh(nm+"#arr", RefS)
+				rel := x.B.Fresh(nm+"#rel", I64)
+				st.PC = x.B.And(st.PC, x.B.Or(x.B.Eq(root, x.B.IntC(0)), x.B.Eq(root, arr)))
+				f.regs[phi] = &Ptr{Arr: root, Idx: x.B.IndexAdd(off, rel), Off: off, Rel: rel, Key: "[]" + typeKey(et), Type: et}
+				continue
+			}
+			f.regs[phi] = &Ptr{Arr: x.B.Fresh(nm+"#arr", RefS), Idx: x.B.Fresh(nm+"#idx", I64), Key: "[]" + typeKey(et), Type: et}
+			continue
+		}
 		f.regs[phi] = x.freshValue(fmt.Sprintf("%s@L%d", name, li.ordinal), phi.Type())
 	}
 	for _, c := range li.inv {
@@ -1163,6 +1281,27 @@ func (f *Frame) scanCall(c *ssa.CallCommon, ms *modSet, add func(string), scanFn
 	}
 	callee := c.StaticCallee()
 	if callee == nil {
+		if c.IsInvoke() {
+			if impls := x.closedImpls(c); impls != nil {
+				if depth > 3 {
+					ms.all = true
+					return
+				}
+				for _, ic := range impls {
+					if sp := x.specFor(ic.fn); sp != nil && !sp.Flags["inline"] {
+						if len(sp.Of("modifies")) > 0 && !sp.Flags["pure"] {
+							ms.all = true
+						}
+						continue
+					}
+					scanFn(ic.fn, nil, depth+1)
+				}
+				return
+			}
+			if x.ifaceSpecFor(c.Method) != nil {
+				return // an interface method with an assumed contract: no modifies clause, no effect
+			}
+		}
 		ms.all = true
 		return
 	}
